@@ -353,6 +353,37 @@ def bounded(ctx, b):
             got = dump(cs)["en"]
             return got == exp, {"start": st, "skew": skew, "offset": offset, "new_start": st * skew + offset, "got": got, "expected": exp}
         b.guard(("adjust-edge", st, skew, offset), edge, sample={"start": st, "skew": skew, "offset": offset})
+    # every start and end is mapped on its own: also where a caption starts exactly where the RETIMED end of the previous one
+    # falls (a gap equal to the offset, a gap that the skew doubles), and for captions that start below zero
+    for spans_, skew, offset in [([(1000000, 2000000), (3000000, 4000000), (5000000, 6000000)], 1.0, 1000000),
+                                 ([(1000000, 2000000), (4000000, 5000000)], 2.0, 0), ([(0, 3000000), (2000000, 5000000)], 1.0, -1000000),
+                                 ([(1000000, 2000000), (2000000, 3000000)], 1.5, 250), ([(-3000000, -1000000), (1000000, 2000000)], 1.0, 2000000),
+                                 ([(-3000000, 500000), (-1, 10), (0, 5)], 1.0, 0), ([(-5, 5), (5, 15)], 2.0, 10)]:
+        def exact(spans_=spans_, skew=skew, offset=offset):
+            cs = CaptionSet({"en": CaptionList([Caption(s_, e_, [T(f"n{i}")]) for i, (s_, e_) in enumerate(spans_)])})
+            cs.adjust_caption_timing(offset=offset, rate_skew=skew)
+            exp = [(s_ * skew + offset, e_ * skew + offset, [(CaptionNode.TEXT, f"n{i}")]) for i, (s_, e_) in enumerate(spans_) if s_ * skew + offset >= 0]
+            got = dump(cs)["en"]
+            return got == exp, {"spans": spans_, "skew": skew, "offset": offset, "got": got, "expected": exp}
+        b.guard(("adjust-exact", tuple(spans_), skew, offset), exact, sample={"spans": spans_, "skew": skew, "offset": offset})
+    # a language added to the set after it was built (set_captions) is a language like the others
+    for op in ("merge", "adjust"):
+        def later(op=op):
+            cs = CaptionSet({"en": CaptionList([Caption(0, 10, [T("a")]), Caption(0, 10, [T("b")])])})
+            cs.set_captions("fr", CaptionList([Caption(5, 9, [T("v")]), Caption(5, 9, [T("w")]), Caption(20, 30, [T("x")])]))
+            if cs.get_languages() != ["en", "fr"]:
+                return False, {"languages": cs.get_languages(), "expected": ["en", "fr"]}
+            if op == "merge":
+                got = dump(merge_concurrent_captions(cs))
+                exp = {"en": [(0, 10, [(CaptionNode.TEXT, "a"), BRK_, (CaptionNode.TEXT, "b")])],
+                       "fr": [(5, 9, [(CaptionNode.TEXT, "v"), BRK_, (CaptionNode.TEXT, "w")]), (20, 30, [(CaptionNode.TEXT, "x")])]}
+            else:
+                cs.adjust_caption_timing(offset=3, rate_skew=1.0)
+                got = dump(cs)
+                exp = {"en": [(3.0, 13.0, [(CaptionNode.TEXT, "a")]), (3.0, 13.0, [(CaptionNode.TEXT, "b")])],
+                       "fr": [(8.0, 12.0, [(CaptionNode.TEXT, "v")]), (8.0, 12.0, [(CaptionNode.TEXT, "w")]), (23.0, 33.0, [(CaptionNode.TEXT, "x")])]}
+            return got == exp, {"operation": op, "got": got, "expected": exp}
+        b.guard(("language-added-later", op), later, sample={"operation": op, "language_added_with_set_captions": "fr"})
     for n in range(0, 5):
         for seq in itertools.product(starts, repeat=n):
             skew, offset = rng.choice(skews), rng.choice(offsets)
